@@ -7,12 +7,39 @@
 //   One record per distinct class object, in discovery order:
 //     CL <hex name> <hex superclass name | -> <hex metaclass name> <methods> <metaclass methods>
 //   where a method table is `-` when empty, else `<hex key>=<identity>,...` sorted by key, and the identity
-//   of a method value is `native` or `<hex function name>/<arity>/<line of the first instruction>`.
+//   of a method value is `native` or `<hex function name>/<arity>/<line of the first instruction>`; for the functions of
+//   core.yl (those found in the method tables of the built-in classes BEFORE the program runs) the line is replaced by `core`.
 use std::collections::HashSet;
 
 use yarel::memory::Gc;
 use yarel::object::ObjClass;
 use yarel::value::Value;
+
+thread_local! {
+    static CORE_FNS: std::cell::RefCell<HashSet<usize>> = std::cell::RefCell::new(HashSet::new());
+}
+
+const CORE_CLASSES: [&str; 28] = [
+    "Object", "Type", "Error", "RuntimeError", "AttributeError", "IndexError", "ImportError", "NameError", "TypeError",
+    "ValueError", "StopIter", "Iter", "MapIter", "FilterIter", "Vec", "VecIter", "String", "StringIter", "Tuple",
+    "TupleIter", "Range", "RangeIter", "HashMap", "Fiber", "Num", "Boolean", "Nil", "Module",
+];
+
+fn collect_core(vm: &mut yarel::vm::Vm) {
+    let mut set = HashSet::new();
+    for name in CORE_CLASSES.iter() {
+        if let Some(Value::ObjClass(c)) = vm.global("main", name) {
+            for cl in [c, c.metaclass] {
+                for (_, v) in cl.methods.iter() {
+                    if let Value::ObjClosure(f) = v {
+                        set.insert(&*f.function as *const yarel::object::ObjFunction as usize);
+                    }
+                }
+            }
+        }
+    }
+    CORE_FNS.with(|c| *c.borrow_mut() = set);
+}
 
 fn table(c: Gc<ObjClass>) -> String {
     let mut entries: Vec<(String, String)> = c
@@ -22,8 +49,13 @@ fn table(c: Gc<ObjClass>) -> String {
             let id = match v {
                 Value::ObjClosure(cl) => {
                     let f = cl.function;
-                    let line = f.chunk.lines.first().copied().unwrap_or(0);
-                    format!("{}/{}/{}", crate::hex(f.name.as_str().as_bytes()), f.arity, line)
+                    let key = &*f as *const yarel::object::ObjFunction as usize;
+                    if CORE_FNS.with(|c| c.borrow().contains(&key)) {
+                        format!("{}/{}/core", crate::hex(f.name.as_str().as_bytes()), f.arity)
+                    } else {
+                        let line = f.chunk.lines.first().copied().unwrap_or(0);
+                        format!("{}/{}/{}", crate::hex(f.name.as_str().as_bytes()), f.arity, line)
+                    }
                 }
                 Value::ObjNative(_) => "native".to_owned(),
                 _ => "other".to_owned(),
@@ -101,6 +133,7 @@ fn cmd_classes(args: &[&str], out: &mut Vec<String>) {
     let src = crate::unhex_str(args[1]);
     crate::gcv::set_deref_check(Some(crate::deref_check));
     let mut vm = crate::new_vm();
+    collect_core(&mut vm);
     crate::setup(&o);
     let r = yarel::vm::interpret(&mut vm, src, None);
     crate::emit_result(out, &r);
